@@ -171,6 +171,23 @@ def gen_files(rng, i):
     return files
 
 
+def gen_dirs(rng, files):
+    """empty sub-directories (F-16e): names that are neither files nor ancestors / descendants of files"""
+    if rng.random() > 0.1:
+        return []
+    out = []
+    for d in rng.sample(["emptydir", "sub/e", "sub2", "data/tmp"], rng.choice([1, 1, 2])):
+        if any(p == d or p.startswith(d + "/") or d.startswith(p + "/") for p in files):
+            continue
+        if any(o.startswith(d + "/") or d.startswith(o + "/") for o in out):
+            continue
+        out.append(d)
+    return out
+
+
+ESC_ROOT = "/dev/shm/c16esc_"
+
+
 def gen_doc(rng, i):
     r = rng.random()
     if r < 0.4:
@@ -180,12 +197,12 @@ def gen_doc(rng, i):
     return {"i": i % 3, "s": rng.choice(["x", "é", "1"]), "n": {"l": [1, 2.5, None]}}
 
 
-def scalar_ok_for_field(v):
-    return not isinstance(v, (dict, list)) and v != "" and v != "."
+def scalar_ok_for_field(v, strict=True):
+    return not isinstance(v, (dict, list)) and (not strict or (v != "" and v != "." and not str(v).startswith(("/", ".."))))
 
 
-def field_keys(sps):
-    """dotted keys that may appear as explicit format fields"""
+def field_keys(sps, strict=True):
+    """dotted keys that may appear as explicit format fields (strict: values keep the path in normal form)"""
     cand = {}
     for sp in sps:
         for k in ["a", "b", "ab", "a_b", "n.x", "n.y"]:
@@ -193,11 +210,11 @@ def field_keys(sps):
             if v is KeyError:
                 continue
             cand.setdefault(k, []).append(v)
-    return [k for k, vs in cand.items() if all(scalar_ok_for_field(v) for v in vs)]
+    return [k for k, vs in cand.items() if all(scalar_ok_for_field(v, strict) for v in vs)]
 
 
 def gen_fmt(rng, sps):
-    fk = field_keys(sps)
+    fk = field_keys(sps, strict=rng.random() < 0.8)
     pieces = []
     style = rng.randrange(8)
     k1 = rng.choice(fk) if fk else None
@@ -321,7 +338,35 @@ def make_case(rng, n=None, target=None):
             path = {"kind": "call", "table": [rng.choice(CALL_POOL) for _ in sps]}
         if rng.random() < 0.22:
             schema = {"kind": "call", "mode": rng.choice(["exact", "exact", "wrong", "typeconf", "partial"])}
+    if sps and schema["kind"] != "str" and rng.random() < 0.05:
+        # F-16f: a path that leads out of the target ('..', absolute) — a few only, and only where the
+        # offending text starts the path (a '..' in the middle of a path is not in the universe)
+        i = rng.randrange(len(sps))
+        mode = rng.choice(["call", "abs-auto", "field"])
+        if mode == "call":
+            esc = rng.choice(["../y", "..", ESC_ROOT + "%d/x" % rng.randrange(10 ** 9), "../../z"])
+            table = [rng.choice(CALL_POOL) for _ in sps]
+            table[i] = esc
+            path = {"kind": "call", "table": table}
+        else:
+            esc = ESC_ROOT + "%d/x" % rng.randrange(10 ** 9) if mode == "abs-auto" else rng.choice(["../y", "..", "../../z"])
+            sp = dict(sps[i])
+            sp["a"] = esc
+            if tagged(sp) not in [tagged(o) for o in sps]:
+                sps[i] = sp
+            if all(scalar_ok_for_field(o.get("a", 0), strict=False) for o in sps):
+                path = {"kind": "none"} if mode == "abs-auto" else {"kind": "fmt", "pieces": [["K", "a"]]}
+            else:
+                sps[i] = {k: v for k, v in sp.items() if k != "a"} if tagged({k: v for k, v in sp.items() if k != "a"}) not in [tagged(o) for o in sps] else sps[i]
+                if any(o.get("a") == esc for o in sps):
+                    path = {"kind": "id"}
+        if schema["kind"] == "call":
+            schema = {"kind": "none"}
     jobs = [{"sp": sp, "doc": gen_doc(rng, i), "files": gen_files(rng, i)} for i, sp in enumerate(sps)]
+    for j in jobs:
+        d = gen_dirs(rng, j["files"])
+        if d:
+            j["dirs"] = d
     pre = []
     if jobs and schema["kind"] in ("none",) and rng.random() < 0.15:
         pre = sorted(rng.sample(range(len(jobs)), min(len(jobs), rng.choice([1, 1, 2]))))
@@ -352,6 +397,21 @@ def fixed_cases():
                "path": {"kind": "fmt", "pieces": [["L", "a"], ["L", "/"], ["K", "a"], ["L", "/"], ["L", "b"], ["L", "/"], ["K", "b"]]},
                "schema": {"kind": "str", "s": "a/{a:int}/b/{b}", "layout": [["L", "a"], ["F", "a", "int"], ["L", "b"], ["F", "b", ""]]},
                "pre": []}
+
+
+def fixed_cases_ef():
+    J = lambda *sps: [{"sp": sp, "doc": None, "files": {"g": "g%d" % i}} for i, sp in enumerate(sps)]
+    for t in ["dir", "zip", "tar", "tar.gz"]:
+        jobs = J({"a": 1}, {"a": 2})
+        jobs[0]["dirs"] = ["emptydir"]
+        yield {"k": "rt", "jobs": jobs, "target": t, "path": {"kind": "none"}, "schema": {"kind": "none"}, "pre": []}
+        for tab in (["../y", "z"], ["b", "b/."], ["b/", "b"], ["", "z"], [ESC_ROOT + "fixed%s/x" % t.replace(".", ""), "z"], ["c//d", "c/e/"], ["c//d", "c/d"], ["c/./d", "c/d"]):
+            yield {"k": "rt", "jobs": J({"a": 1}, {"a": 2}), "target": t, "path": {"kind": "call", "table": tab},
+                   "schema": {"kind": "none"}, "pre": []}
+        yield {"k": "rt", "jobs": J({"a": "../y"}, {"a": "z"}), "target": t,
+               "path": {"kind": "fmt", "pieces": [["K", "a"]]}, "schema": {"kind": "none"}, "pre": []}
+        yield {"k": "rt", "jobs": J({"a": ""}, {"a": "."}), "target": t,
+               "path": {"kind": "fmt", "pieces": [["L", "k/"], ["K", "a"]]}, "schema": {"kind": "none"}, "pre": []}
 
 
 PARSE_SCHEMAS = ["a/{a:int}", "{a:float}", "a/{a}/b/{b:bool}", "{n.x:int}/{n.y:str}", "pre.v1/{a:str}", "{a:int}/x",
@@ -394,6 +454,8 @@ def generate(tier, rng):
     n_str = 150 if tier == "quick" else 1500
     for c in fixed_cases():
         yield c
+    for c in fixed_cases_ef():
+        yield c
     for _ in range(n_rt):
         yield make_case(rng)
     for _ in range(n_parse):
@@ -428,6 +490,8 @@ def shrink(case):
             yield dict(case, jobs=jobs[:i] + [dict(j, files={})] + jobs[i + 1:])
         if j["doc"] is not None:
             yield dict(case, jobs=jobs[:i] + [dict(j, doc=None)] + jobs[i + 1:])
+        if j.get("dirs"):
+            yield dict(case, jobs=jobs[:i] + [{k: v for k, v in j.items() if k != "dirs"}] + jobs[i + 1:])
     for i, j in enumerate(jobs):
         for k in list(j["sp"]):
             sp = dict(j["sp"])
@@ -458,9 +522,11 @@ def kind_of(e):
 
 
 def files_of_dir(root):
-    """relative file paths (posix) -> bytes, for everything below root"""
+    """relative paths (posix) -> bytes for every file below root, -> None for every EMPTY sub-directory"""
     out = {}
     for dp, dns, fns in os.walk(root):
+        if not dns and not fns and dp != root:
+            out[os.path.relpath(dp, root).replace(os.sep, "/")] = None
         for fn in fns:
             full = os.path.join(dp, fn)
             rel = os.path.relpath(full, root).replace(os.sep, "/")
@@ -522,13 +588,35 @@ def onepass_ok(paths):
 
 
 
-def in_model_domain(dsts):
-    for d in dsts:
-        if d == "":
-            continue
-        if posixpath.normpath(d) != d or d.startswith("/") or ".." in d.split("/"):
-            return False
-    return True
+def norm_checks_ok(paths):
+    """the checks on the normalised paths (below the target, distinct places, root only alone, no leaf/node)"""
+    ns = [posixpath.normpath(p) if p != "" else "." for p in paths]
+    if any(n.startswith("/") or n.split("/")[0] == ".." for n in ns):
+        return False
+    if len(set(ns)) < len(ns) or ("." in ns and len(ns) > 1):
+        return False
+    return not paths_conflict_raw(ns)
+
+
+def escape_roots(case):
+    """absolute places a generated value points to (must never come into existence)"""
+    out = set()
+
+    def walk(v):
+        if isinstance(v, str) and v.startswith(ESC_ROOT):
+            out.add("/".join(v.split("/")[:4]))
+        elif isinstance(v, dict):
+            for x in v.values():
+                walk(x)
+        elif isinstance(v, list):
+            for x in v:
+                walk(x)
+
+    for j in case["jobs"]:
+        walk(j["sp"])
+    if case["path"]["kind"] == "call":
+        walk(case["path"]["table"])
+    return sorted(out)
 
 
 class Labels:
@@ -538,7 +626,7 @@ class Labels:
         self.blob = {}
 
     def add(self, data):
-        if data not in self.blob:
+        if data is not None and data not in self.blob:
             self.blob[data] = len(self.blob) + 1
 
     def of(self, data):
@@ -588,7 +676,7 @@ def enc_spec(path, table_by_listing=None):
 def render_files(job_id, files, labels):
     items = []
     for p, data in files.items():
-        lab = sp_label(data, job_id) if p == FN_SP else labels.of(data)
+        lab = "d" if data is None else (sp_label(data, job_id) if p == FN_SP else labels.of(data))
         items.append((p, lab))
     items.sort()
     return items
@@ -620,7 +708,7 @@ def read_members(target, kind):
     if kind == "dir":
         if os.path.isdir(target):
             for p, data in files_of_dir(target).items():
-                out.append((p, data))
+                out.append((p, "e" if data is None else data))
     elif kind == "zip":
         if os.path.isfile(target):
             with zipfile.ZipFile(target) as z:
@@ -746,6 +834,8 @@ def run_rt(case, ctx):
                 os.makedirs(os.path.dirname(full), exist_ok=True)
                 with open(full, "w") as f:
                     f.write(content)
+            for dname in j.get("dirs", []):
+                os.makedirs(job.fn(dname), exist_ok=True)
             by_index[i] = job.id
         src = signac.Project(src.path)           # fresh handle: no warm caches
         jobs = list(src)                          # listing order = what export sees
@@ -829,7 +919,9 @@ def run_rt(case, ctx):
         info["dsts"] = dsts
         info["export_exc"] = kind_of(exp_exc) if exp_exc else None
         members = read_members(target, mkind)
-        file_members = [(n, d) for n, d in members if d != "d"]
+        file_members = [(n, d) for n, d in members if d not in ("d", "e")]
+        dir_members = sorted(n for n, d in members if d in ("d", "e"))
+        esc_roots = escape_roots(case)
         tags.append("target=" + kind)
         tags.append("path=" + path["kind"])
         tags.append("schema=" + case["schema"]["kind"])
@@ -851,18 +943,26 @@ def run_rt(case, ctx):
         if dsts is None:
             tags.append("export=" + kind_of(exp_exc))
 
-        in_domain = dsts is None or in_model_domain(dsts)
+        in_domain = True
+        # the paths, for the classification of known findings only
+        class_paths = dsts
+        if class_paths is None and _priv("_make_path_function") is not None:
+            try:
+                pf = path_arg if callable(path_arg) else _priv("_make_path_function")(jobs, path_arg)
+                class_paths = [pf(job) for job in jobs]
+            except Exception:
+                class_paths = None
+        info["class_paths"] = class_paths
+        info["empty_dirs"] = any(j.get("dirs") for j in case["jobs"])
         model.append("members %s %s %s" % (mkind, spec_line, P_line))
         if dsts is None:
             impl.append("err " + kind_of(exp_exc))
-        elif not in_domain:
-            impl.append("unsupported-path")
         else:
             src_ids = set(order)
             items = []
             for name, data in members:
-                if data == "d":
-                    items.append((name, "d"))
+                if data in ("d", "e"):
+                    items.append((name, data))
                 elif name.rsplit("/", 1)[-1] == FN_SP and data not in labels.blob:
                     items.append((name, "s" if any(sp_label(data, jid) == "s" for jid in src_ids) else "x"))
                 else:
@@ -880,16 +980,27 @@ def run_rt(case, ctx):
         outside = [p for p in ch + rm if not (p == tgt_rel or p.startswith(tgt_rel + os.sep))]
         if outside:
             oracle.append("export wrote outside its target %s: %r" % (tgt_rel, outside[:4]))
+        for er in esc_roots:
+            if os.path.lexists(er):
+                oracle.append("export created %s, outside its target" % er)
+                shutil.rmtree(er, ignore_errors=True)
         if dsts is not None:
             bad = paths_conflict(dsts) if len(dsts) > 1 else []
             if bad:
                 oracle.append("export accepted non-unique or leaf/node-conflicting paths %r (all: %r)" % (bad[:2], dsts))
-            want = sorted((posixpath.join(norm_rel(d), p) if norm_rel(d) else p, data)
-                          for jid, d in zip(order, dsts) for p, data in src_files[jid].items())
+            want_all = sorted(((posixpath.join(norm_rel(d), p) if norm_rel(d) else p, data)
+                               for jid, d in zip(order, dsts) for p, data in src_files[jid].items()),
+                              key=lambda t: (t[0], t[1] or b""))
+            want = [(n, data) for n, data in want_all if data is not None]
+            want_dirs = sorted(n for n, data in want_all if data is None)
             got = sorted(file_members)
             if not bad and got != want:
                 oracle.append("exported members differ from the source files: missing %r unexpected %r" % (
                     [n for n, _ in want if n not in dict(got)][:3], [n for n, _ in got if n not in dict(want)][:3]))
+            lost = [n for n in want_dirs if n not in dir_members]
+            if not bad and lost:
+                oracle.append("exported %s lacks the empty director%s %r of the source" % (
+                    "tree" if mkind == "dir" else "archive", "y" if len(lost) == 1 else "ies", lost[:3]))
         elif file_members:
             oracle.append("export raised %s after writing %d file(s), e.g. %r" % (
                 kind_of(exp_exc), len(file_members), file_members[0][0]))
@@ -970,9 +1081,7 @@ def run_rt(case, ctx):
             after = {n: f for n, f in after.items() if f or n in pre_ids}
             shown = after
             model.append("rt %s %s %s %s %s%s" % (mkind, spec_line, schema_line, D_line, P_line, walk_line))
-            if not in_domain:
-                impl.append("unsupported-path")
-            else:
+            if True:
                 impl.append((("ok " if imp_exc is None else "err %s " % kind_of(imp_exc)) + render_project(shown, labels)).strip())
 
             # ---- oracle: import ----
@@ -1029,6 +1138,10 @@ def run_rt(case, ctx):
             snap_src2 = tree_snapshot(src.path)
             if snap_src2 != snap_src0:
                 oracle.append("import changed the source project")
+            for er in esc_roots:
+                if os.path.lexists(er):
+                    oracle.append("import created %s, outside the importing project" % er)
+                    shutil.rmtree(er, ignore_errors=True)
         else:
             model.append("rt %s %s %s %s %s" % (mkind, spec_line, "none", D_line, P_line))
             impl.append("export-err " + kind_of(exp_exc))
@@ -1043,3 +1156,23 @@ def run_rt(case, ctx):
         return {"model": model, "impl": impl, "oracle": oracle, "tags": tags, "key": keyv, "info": info}
     finally:
         ctx.cleanup(S)
+
+
+# ----------------------------------------------------------------------------------------------
+# known findings — as narrow as the defect
+# ----------------------------------------------------------------------------------------------
+def known_class(case, r):
+    if case.get("k") != "rt":
+        return None
+    info = r.get("info") or {}
+    paths = info.get("class_paths")
+    # F-16f: paths that are only wrong after normalisation (leave the target, name the same place twice,
+    # nest) pass the checks, which look at the raw strings
+    if paths is not None and len(set(paths)) == len(paths) and not paths_conflict_raw(paths) and not norm_checks_ok(paths):
+        return "F-16f"
+    # F-16e: zip export stores files only; empty sub-directories of a job are lost
+    if case["target"] == "zip" and info.get("empty_dirs") and all(
+            "empty director" in m or ("files differ after the round trip: missing" in m and m.endswith("extra [] changed []"))
+            for m in r.get("oracle", [])):
+        return "F-16e"
+    return None
